@@ -3,6 +3,10 @@
 //! This module provides [`CacheKeyOfSetMap`], which wraps a database backend
 //! with caching for improved read performance on key-to-set relationships.
 
+#[cfg(feature = "verif")]
+#[allow(unused_imports)]
+use qbice_verif_rt::{parking_lot, std};
+
 use std::{
     collections::{BinaryHeap, HashSet},
     hash::Hash,
